@@ -56,15 +56,18 @@ static void *sema_thread(void *arg) {
 			else { S.timeouts++; h_log("t%d wait now -> timeout", th); }
 			break;
 		case S_WAIT_TIMED: {
-			dispatch_time_t t = dispatch_time(DISPATCH_TIME_NOW, (int64_t)op->arg);
-			uint64_t deadline = (uint64_t)t;   // uptime clock, nanoseconds on this platform
+			// the time-out is expressed on one of the three clocks
+			int ck = op->idx % 3; dispatch_time_t t; uint64_t deadline; int clkid;
+			if (ck == 0) { t = dispatch_time(DISPATCH_TIME_NOW, (int64_t)op->arg); deadline = (uint64_t)t; clkid = CLOCK_MONOTONIC; }
+			else if (ck == 1) { t = dispatch_time(1ull << 63 /* DISPATCH_MONOTONICTIME_NOW */, (int64_t)op->arg); deadline = (uint64_t)t & ~(1ull << 63); clkid = CLOCK_BOOTTIME; }
+			else { t = dispatch_walltime(NULL, (int64_t)op->arg); deadline = (uint64_t)(-(int64_t)t); clkid = CLOCK_REALTIME; }
 			h_log("t%d call wait timed %lu ns", th, (unsigned long)op->arg);
 			S.blocked_forever++;
 			long r = dispatch_semaphore_wait(S.sema, t);
 			S.blocked_forever--;
 			if (r == 0) sema_after_success(th, "wait timed");
 			else {
-				uint64_t now = sim_clock_hw(CLOCK_MONOTONIC);
+				uint64_t now = sim_clock_hw(clkid);
 				S.timeouts++;
 				if (S.signals_in_flight) S.timeout_during_signal = 1;
 				h_log("t%d wait timed -> timeout", th);
